@@ -139,10 +139,10 @@ func (g *GaussianSampler) read(pol Poly, f func(a, b, c uint64) uint64) {
 					normInt.Add(normInt, bignum.RandInt(g.prng, normIntLowBits))
 				}
 
-				/* #nosec G115 -- sign is 0 or 1 */
-				normInt.Mul(normInt, bignum.NewInt(2*int64(sign)-1))
-
+				// The bound applies to the absolute value: checks it before applying the sign.
 				if normInt.Cmp(boundInt) < 1 {
+					/* #nosec G115 -- sign is 0 or 1 */
+					normInt.Mul(normInt, bignum.NewInt(2*int64(sign)-1))
 					break
 				}
 			}
